@@ -13,6 +13,36 @@ from harness.report import Report  # noqa: E402
 from harness.tlc import TLCError  # noqa: E402
 
 
+def opt_pass(rep, pid, tier):
+    """the same check once more in an interpreter started with -O, restricted to its cheap implementation-facing legs;
+    its violations count as violations of this run"""
+    import subprocess
+    mod = importlib.import_module(f"props.{pid.lower()}")
+    if not getattr(mod, "OPT_PASS", True):
+        return
+    env = dict(os.environ, VERIF_OPT="1", VERIF_TIER="quick")
+    r = subprocess.run([sys.executable, "-O", "-X", "faulthandler", os.path.abspath(__file__), pid, "--tier", "quick"],
+                       env=env, capture_output=True, text=True, timeout=3000)
+    summary = None
+    for line in r.stdout.splitlines():
+        if line.startswith("OPT-SUMMARY "):
+            summary = json.loads(line[len("OPT-SUMMARY "):])
+        elif line.startswith("VIOLATION "):
+            path = line.split("replay=", 1)[1].strip()
+            try:
+                rec = json.load(open(path))
+            except Exception:  # noqa: BLE001
+                rec = dict(why="violation in the optimised pass")
+            rec["why"] = "[python -O] " + str(rec.get("why", ""))
+            rep.violations.append((rec, path))
+            print(line, flush=True)
+        elif line.startswith(f"[{pid}]"):
+            print(line.replace(f"[{pid}]", f"[{pid} -O]", 1), flush=True)
+    if summary is None:
+        raise TLCError(f"the optimised pass of {pid} did not complete (rc={r.returncode}):\n{r.stdout[-1500:]}\n{r.stderr[-1500:]}")
+    rep.extra["optimised_pass"] = summary
+
+
 def main():
     ap = argparse.ArgumentParser()
     ap.add_argument("pid")
@@ -33,7 +63,11 @@ def main():
         mod.replay(Report(pid, rec.get("tier", "quick"), rec.get("seed", 0)), rec)
         return 0
     rep = Report(pid, a.tier, seed)
-    rep.log(f"tier={a.tier} seed={seed} haiway from {src}")
+    if os.environ.get("VERIF_OPT") == "1":
+        rep.log(f"optimised pass (python -O: assertions stripped, __debug__ False) tier={a.tier}")
+    else:
+        rep.log(f"tier={a.tier} seed={seed} haiway from {src}")
+        opt_pass(rep, pid, a.tier)
     try:
         with Work() as work:
             return mod.run(rep, work, a.tier, seed)
